@@ -1,11 +1,15 @@
 package main
 
 import (
-	"github.com/olive-io/bpmn/v2/pkg/tracing"
-	"time"
+	"context"
 	"fmt"
+	"github.com/olive-io/bpmn/schema"
+	"github.com/olive-io/bpmn/v2/pkg/tracing"
 	"math/rand"
 	"strings"
+	"sync"
+	"sync/atomic"
+	"time"
 
 	bpmn "github.com/olive-io/bpmn/v2"
 )
@@ -354,7 +358,121 @@ func runC03(env *Env) {
 		}
 		in.Close()
 	}
+	// all N tokens arrive at the join at the same moment, at its very first activation (fork and join connected
+	// directly), many fresh instances in parallel: exactly one token per outgoing flow, N visits, completion
+	{
+		const N, M = 4, 2
+		instances := 8000
+		if env.Thorough() {
+			instances = 80000
+		}
+		p := &Prog{}
+		p.Node("start", "start")
+		p.Node("par", "fork")
+		p.Node("par", "join")
+		p.Flow("start", "fork", "")
+		for i := 0; i < N; i++ {
+			p.Flow("fork", "join", "")
+		}
+		for j := 0; j < M; j++ {
+			p.Node("end", fmt.Sprintf("end%d", j))
+			p.Flow("join", fmt.Sprintf("end%d", j), "")
+		}
+		defs, err := ParseDefs(p.XML(""))
+		must(err)
+		cs := fmt.Sprintf("fork 1->%d connected directly to a join %d->%d, %d fresh instances on 8 workers", N, N, M, instances)
+		env.Current(cs)
+		var mu sync.Mutex
+		bad, firstBad := 0, ""
+		var wg sync.WaitGroup
+		next := int64(0)
+		for w := 0; w < 8; w++ {
+			wg.Add(1)
+			go func() {
+				defer wg.Done()
+				for atomic.AddInt64(&next, 1) <= int64(instances) {
+					if msg := c03Simultaneous(defs, N, M); msg != "" {
+						mu.Lock()
+						bad++
+						if firstBad == "" {
+							firstBad = msg
+						}
+						mu.Unlock()
+					}
+				}
+			}()
+		}
+		wg.Wait()
+		rep.Evaluations++
+		rep.Nontrivial++
+		rep.Count("simultaneous_arrivals")
+		if bad > 0 {
+			rep.Violate("C03-release", cs, fmt.Sprintf("%d of %d instances went wrong, e.g.: %s", bad, instances, firstBad))
+		}
+	}
 	env.WriteCases(rep, "_engine", "Corr.C03corr", "nat * nat * list (list nat) * list (list nat)", eitems, "c03_engine_mismatches")
 	rep.Exhaustive = true
 	env.WriteReport(rep)
+}
+
+// c03Simultaneous runs one instance of the directly connected fork/join and returns what went wrong ("" if nothing)
+func c03Simultaneous(defs *schema.Definitions, n, m int) string {
+	ctx, cancel := context.WithCancel(context.Background())
+	defer cancel()
+	var procElem *schema.Process
+	for i := range *defs.Processes() {
+		procElem = &(*defs.Processes())[i]
+	}
+	inst, err := bpmn.NewProcess(procElem, defs, bpmn.WithContext(ctx), bpmn.WithIdGenerator(sharedGen))
+	if err != nil {
+		return "instantiate: " + err.Error()
+	}
+	traces := inst.Tracer().SubscribeChannel(make(chan tracing.ITrace, 256))
+	if err = inst.StartAll(ctx); err != nil {
+		return "start: " + err.Error()
+	}
+	visits := map[string]int{}
+	released := 0
+	completed := false
+	deadline := time.After(3 * time.Second)
+loop:
+	for {
+		select {
+		case tr, ok := <-traces:
+			if !ok {
+				break loop
+			}
+			switch t := tracing.Unwrap(tr).(type) {
+			case bpmn.VisitTrace:
+				visits[nodeId(t.Node)]++
+			case bpmn.FlowTrace:
+				if nodeId(t.Source) == "join" {
+					released += len(t.Flows)
+				}
+			case bpmn.ErrorTrace:
+				return fmt.Sprintf("error trace: %v", t.Error)
+			case bpmn.CeaseFlowTrace:
+				completed = true
+				break loop
+			}
+		case <-deadline:
+			break loop
+		}
+	}
+	var problems []string
+	if !completed {
+		problems = append(problems, "the instance did not complete within 3 s (a token is stuck at the join)")
+	}
+	if visits["join"] != n {
+		problems = append(problems, fmt.Sprintf("join visited %d times, expected %d", visits["join"], n))
+	}
+	if released != m {
+		problems = append(problems, fmt.Sprintf("%d tokens put on the join's outgoing flows, expected %d", released, m))
+	}
+	for j := 0; j < m; j++ {
+		if v := visits[fmt.Sprintf("end%d", j)]; v != 1 {
+			problems = append(problems, fmt.Sprintf("end%d visited %d times, expected once", j, v))
+		}
+	}
+	return strings.Join(problems, "; ")
 }
